@@ -263,6 +263,144 @@ pub fn make_fixture(ch: &Choices, seekable: bool) -> Option<Fixture> {
     Some(Fixture { cfg, pcm, bytes, shape })
 }
 
+/// a finished file that did not come from the crate's encoder: generator-made frames (refflac's frame
+/// writer) whose block size changes from frame to frame (variable blocking strategy, coded sample
+/// numbers) or a fixed-blocking stream, behind a hand-made STREAMINFO and seek table of the drawn shape
+pub fn make_foreign_fixture(ch: &Choices, seekable: bool) -> Option<Fixture> {
+    use crate::refflac;
+    use crate::scen_synth::make_frame_from;
+    use flac_codec::metadata::{Block, Padding, Streaminfo, write_blocks};
+    let mut rng = crate::rng::Xoshiro::new(ch.raw("rdg.seed"));
+    let (bps, bps_code) = *ch.pick("rdg.bps", &[(16u32, 4u8), (8, 1), (12, 2), (20, 5), (24, 6), (32, 7)]);
+    let assign = ch.draw("rdg.assign", 8);
+    let channels: usize = match assign {
+        0 => 1,
+        1..=4 => 2,
+        _ => 3 + (rng.next() % 6) as usize,
+    };
+    let variable = ch.draw("rdg.variable", 3) != 0;
+    let nframes = 2 + ch.draw("rdg.frames", 6) as usize;
+    let base = 16 + ch.draw("rdg.block", 100) as usize;
+    let mut sizes: Vec<usize> = (0..nframes)
+        .map(|_| if variable { *ch.pick("rdg.size", &[16usize, 17, 32, 100, 192, 64, 23, 48]) } else { base })
+        .collect();
+    if variable && ch.draw("rdg.size.any", 2) == 1 {
+        for s in sizes.iter_mut() {
+            *s = 16 + (rng.next() % 120) as usize;
+        }
+    }
+    // the last frame may be short
+    if ch.draw("rdg.last.short", 2) == 1 {
+        *sizes.last_mut().unwrap() = 1 + ch.draw("rdg.last", base.max(17) as u64 - 1) as usize;
+    }
+    let span = 1u64 << bps.min(16);
+    let mut frames: Vec<Vec<u8>> = Vec::new();
+    let mut inter: Vec<i32> = Vec::new();
+    let mut pos = 0u64;
+    for (k, n) in sizes.iter().enumerate() {
+        // non-periodic data so that a misplaced position cannot go unnoticed
+        let chans: Vec<Vec<i64>> = (0..channels)
+            .map(|_| (0..*n).map(|_| ((rng.next() % span) as i64 - (span / 2) as i64).clamp(sample_min(bps), sample_max(bps))).collect())
+            .collect();
+        let number = if variable { pos } else { k as u64 };
+        let mut m = make_frame_from(ch, &mut rng, bps, bps_code, assign, chans, number)?;
+        m.spec.bend.variable = variable;
+        frames.push(refflac::write_frame(&m.spec));
+        for i in 0..*n {
+            for c in &m.chans {
+                inter.push(c[i] as i32);
+            }
+        }
+        pos += *n as u64;
+    }
+    let total = pos;
+    let pcm = Pcm { channels, bps, frames: total as usize, inter };
+    let body = &sizes[..sizes.len() - 1];
+    let (minb, maxb) = if variable {
+        (*body.iter().min().unwrap() as u16, *sizes.iter().max().unwrap().max(&16) as u16)
+    } else {
+        (base as u16, base as u16)
+    };
+    let rate = 44100u32;
+    let si = Streaminfo {
+        minimum_block_size: minb,
+        maximum_block_size: maxb.max(minb),
+        minimum_frame_size: None,
+        maximum_frame_size: None,
+        sample_rate: rate,
+        channels: std::num::NonZero::new(channels as u8).unwrap(),
+        bits_per_sample: bps.try_into().ok()?,
+        total_samples: std::num::NonZero::new(total),
+        md5: Some(refflac::pcm_md5(&pcm.inter, bps)),
+    };
+    let shape = if seekable {
+        *ch.pick(
+            "rdg.table",
+            &[TableShape::EveryFrame, TableShape::None, TableShape::Sparse, TableShape::Placeholders, TableShape::LateFirst, TableShape::OnlyPlaceholders],
+        )
+    } else {
+        *ch.pick("rdg.table.ns", &[TableShape::None, TableShape::EveryFrame])
+    };
+    let mut pts: Vec<SeekPoint> = Vec::new();
+    {
+        let every = match shape {
+            TableShape::EveryFrame => 1,
+            TableShape::Sparse | TableShape::Placeholders | TableShape::LateFirst => 2 + ch.draw("rdg.sparse", 3) as usize,
+            _ => 0,
+        };
+        let (mut so, mut bo) = (0u64, 0u64);
+        for (k, (n, f)) in sizes.iter().zip(&frames).enumerate() {
+            if every > 0 && k % every == 0 && !(shape == TableShape::LateFirst && k == 0) {
+                pts.push(SeekPoint::Defined { sample_offset: so, byte_offset: bo, frame_samples: *n as u16 });
+            }
+            so += *n as u64;
+            bo += f.len() as u64;
+        }
+        if matches!(shape, TableShape::Placeholders | TableShape::OnlyPlaceholders) {
+            for _ in 0..1 + ch.draw("rdg.ph.n", 3) {
+                pts.push(SeekPoint::Placeholder);
+            }
+        }
+        match shape {
+            TableShape::LateFirst => probe("c06_table_first_point_after_start"),
+            TableShape::OnlyPlaceholders => probe("c06_table_only_placeholders"),
+            TableShape::Placeholders => probe("c06_table_with_placeholders"),
+            _ => {}
+        }
+    }
+    let mut blocks: Vec<Block> = vec![si.into()];
+    if shape != TableShape::None {
+        blocks.push(SeekTable { points: pts.try_into().ok()? }.into());
+    }
+    if ch.draw("rdg.pad", 2) == 1 {
+        blocks.push(Padding { size: 40u32.try_into().unwrap() }.into());
+    }
+    let mut bytes = Vec::new();
+    write_blocks(&mut bytes, blocks).ok()?;
+    for f in &frames {
+        bytes.extend_from_slice(f);
+    }
+    // the independent reader must find the file valid, with this PCM
+    match refflac::parse_stream(&bytes, 0) {
+        Ok(rs) if rs.is_valid() && rs.pcm() == pcm.inter => {}
+        other => {
+            crate::monitor::note(format!("HARNESS: generator-made file not valid per refflac: {:?}", other.map(|r| (r.end, r.hard))));
+            return None;
+        }
+    }
+    probe("rd_generator_made_file");
+    if variable {
+        probe("rd_variable_block_size_stream");
+    }
+    let mut cfg = draw_cfg(&Choices::generate(1), true);
+    cfg.channels = channels as u8;
+    cfg.bps = bps;
+    cfg.rate = rate;
+    cfg.block = base as u16;
+    cfg.declare_total = true;
+    Some(Fixture { cfg, pcm, bytes, shape })
+}
+
 fn open_front<'a>(front: Front, src: Src<SimFile>, c: usize) -> Result<Box<dyn Rd + 'a>, String> {
     Ok(match front {
         Front::ByteLE => Box::new(ByteRd(FlacByteReader::<_, LittleEndian>::new_seekable(src).map_err(|e| format!("{e:?}"))?)),
@@ -276,15 +414,23 @@ fn open_front<'a>(front: Front, src: Src<SimFile>, c: usize) -> Result<Box<dyn R
 }
 
 pub fn run_c07(ctx: &mut Ctx) -> R {
-    run_history(ctx, false)
+    run_history(ctx, false, false)
 }
 pub fn run_c06(ctx: &mut Ctx) -> R {
-    run_history(ctx, true)
+    run_history(ctx, true, false)
+}
+/// the same histories over generator-made files (block size changing from frame to frame)
+pub fn run_c07_gen(ctx: &mut Ctx) -> R {
+    run_history(ctx, false, true)
+}
+pub fn run_c06_gen(ctx: &mut Ctx) -> R {
+    run_history(ctx, true, true)
 }
 
-fn run_history(ctx: &mut Ctx, with_seeks: bool) -> R {
+fn run_history(ctx: &mut Ctx, with_seeks: bool, foreign: bool) -> R {
     let ch = ctx.ch.clone();
-    let Some(fx) = make_fixture(&ch, with_seeks) else {
+    let fx = if foreign { make_foreign_fixture(&ch, with_seeks) } else { make_fixture(&ch, with_seeks) };
+    let Some(fx) = fx else {
         ctx.skip_foreign("fixture could not be encoded");
         return Ok(());
     };
